@@ -557,8 +557,7 @@ def check_approvals(job):
 
     approved_by_author = (
         not job.settings.need_author_approval or
-        bypass_author_approval(job) or
-        job.settings.approve
+        bypass_author_approval(job)
     )
     requires_unanimity = job.settings.unanimity
     is_unanimous = True
